@@ -95,6 +95,13 @@ def start_oracle(spec: dict, run, prop: str = "C03") -> tuple[list[dict], Counte
             jump_groups[groups.of(m["seq"])] = json.loads(payloads.get(m["a"]) or "{}").get("target_stage_ref_id")
         except Exception:
             pass
+    # StartStage messages pushed by a JumpToStage handler: their stage is "the explicit target of a jump"
+    jump_pushed: set = set()
+    for a in run.audit:
+        if a["kind"] == "queue" and a["op"] == "ins" and a["c"] == "StartStage":
+            t_ = groups.tag(groups.of(a["seq"]))
+            if t_ and t_[0] == "JumpToStage":
+                jump_pushed.add(str(a["a"]))
     last_rearm: dict[str, int] = {}
     inj_seqs = [i["seq"] for i in run.injected if i["do"] in ("early_start", "dup_start")]
     for a in run.audit:
@@ -114,6 +121,10 @@ def start_oracle(spec: dict, run, prop: str = "C03") -> tuple[list[dict], Counte
             if jump_groups.get(g) == ref:
                 obs["jump_target_starts"] += 1
                 continue
+        tag_here = groups.tag(groups.of(q))
+        if tag_here and tag_here[0] == "StartStage" and str(tag_here[1]) in jump_pushed:
+            obs["jump_target_starts"] += 1
+            continue
         ups = {u: tl.at(ids[u], q) for u in sd.get("req") or [] if u in ids}
         ok, why = predicate(sd, ups)
         obs["starts_checked"] += 1
@@ -310,6 +321,7 @@ def run_case(case: dict) -> dict:
         if run.budget_exhausted:
             obs["budget_exhausted"] += 1
         v, o, k = start_oracle(spec, run)
+        v = oracles.attribute(v, run, "C03")
         obs.update(o)
         keys |= k
         for x in v:
